@@ -503,7 +503,7 @@ theorem idInv_putEquity {s s' : St} {a id c : Nat} {e : Int} (h : putEquity s a 
       injection hx with hx; injection hx with hx1 hx2; subst hx1
       by_cases ky : y = a ∧ i = id
       · simp only [ky, and_self, if_true] at hy
-        injection hy with hy; injection hy with hy1 hy2; exact hy1
+        cases hy; rfl
       · simp only [ky, if_false] at hy
         rw [kx.2] at hy
         exact (h1 y c2 e2 hy).symm
@@ -607,19 +607,18 @@ theorem idInv_apply {fixed : Bool} {stable s s' : St} {op : Op} (h : apply fixed
             split
             · rfl
             · rename_i c2 e2 hq; exact I.idc rc sd id c2 e2 c0 e0 hq hse
+          generalize creditEntry s rc id c0 (if r0.divisible = true then am else e0) = X at h1 hce
+          obtain ⟨x1, x2⟩ := X
+          simp only at hce; subst hce
           obtain ⟨_, _, _, he1⟩ := putEquity_ok h1
-          have h1' : putEquity s rc id (c0, (creditEntry s rc id c0 (if r0.divisible = true then am else e0)).2) = .ok s1 := by
-            rw [← hce]; exact h1
-          refine ⟨idInv_putEquity h1' I (fun b c2 e2 hb => I.idc b sd id c2 e2 c0 e0 hb hse)
-            (fun r' hr' => I.own sd id c0 e0 r' hse hr'), ?_⟩
+          refine ⟨idInv_putEquity h1 I (fun b c2 e2 hb => I.idc b sd id c2 e2 x1 e0 hb hse)
+            (fun r' hr' => I.own sd id x1 e0 r' hse hr'), ?_⟩
           intro b c2 e2 hb
           rw [he1] at hb
-          by_cases k : b = rc ∧ id = id
-          · simp only [k, and_self, if_true] at hb
-            injection hb with hb
-            rw [← hce, hb]
-          · simp only [k, if_false] at hb
-            exact I.idc b sd id c2 e2 c0 e0 hb hse
+          by_cases k : b = rc
+          · simp [k] at hb; exact hb.1.symm
+          · simp [k] at hb
+            exact I.idc b sd id c2 e2 x1 e0 hb hse
         · obtain ⟨_, _, _, he1, _, _⟩ := putSupply_ok h1
           refine ⟨idInv_putSupply h1 I, ?_⟩
           intro b c2 e2 hb
@@ -723,19 +722,20 @@ theorem frozen_immovable (fixed : Bool) (stable s s' : St) (op : Op) (h : apply 
         rcases h1 with ⟨_, h1⟩ | ⟨_, h1⟩
         · obtain ⟨_, ha1, _, he1⟩ := putEquity_ok h1
           refine ⟨by rw [ha1]; exact hr, fun b i k => by rw [he1]; simp only [k, if_false], ?_⟩
+          have hce : (creditEntry s rc id c0 (if r0.divisible = true then am else e0)).1 = c0 := by
+            unfold creditEntry
+            split
+            · rfl
+            · rename_i c3 e3 hq; exact I.idc rc sd id c3 e3 c0 e0 hq hse
+          generalize creditEntry s rc id c0 (if r0.divisible = true then am else e0) = X at he1 hce
+          obtain ⟨x1, x2⟩ := X
+          simp only at hce; subst hce
           intro b c2 e2 hb
           rw [he1] at hb
-          by_cases k : b = rc ∧ id = id
-          · simp only [k, and_self, if_true] at hb
-            injection hb with hb
-            have : (creditEntry s rc id c0 (if r0.divisible = true then am else e0)).1 = c0 := by
-              unfold creditEntry
-              split
-              · rfl
-              · rename_i c3 e3 hq; exact I.idc rc sd id c3 e3 c0 e0 hq hse
-            rw [← this, hb]
-          · simp only [k, if_false] at hb
-            exact I.idc b sd id c2 e2 c0 e0 hb hse
+          by_cases k : b = rc
+          · simp [k] at hb; exact hb.1.symm
+          · simp [k] at hb
+            exact I.idc b sd id c2 e2 x1 e0 hb hse
         · obtain ⟨r1, _, _, he1, _, ha1⟩ := putSupply_ok h1
           refine ⟨by rw [ha1]; simp only [hx, if_false]; exact hr, fun b i _ => by rw [he1], ?_⟩
           intro b c2 e2 hb
@@ -750,11 +750,10 @@ theorem frozen_immovable (fixed : Bool) (stable s s' : St) (op : Op) (h : apply 
         rcases hcase with ⟨e, hb⟩ | ⟨e, hb⟩
         · exact hx (I.idc b sd i x e c0 e0 hb hse)
         · rw [he2] at hb
-          by_cases k : b = sd ∧ i = i
-          · simp only [k, and_self, if_true] at hb
-            injection hb with hb; injection hb with hb1 hb2
-            exact hx (hb1 ▸ (k3 sd c' e' hs1).symm ▸ rfl)
-          · simp only [k, if_false] at hb
+          by_cases k : b = sd
+          · simp [k] at hb
+            exact hx (hb.1.symm.trans (k3 sd c' e' hs1))
+          · simp [k] at hb
             exact hx (k3 b x e hb)
       rw [he2]
       have n1 : ¬ (b = sd ∧ i = id) := fun k => hi k.2
